@@ -78,6 +78,15 @@ def check_reply(rep):
             d = dict(det)
             d.update(errmsg=em, expected_errmsg=text)
             out.append(("errmsg-mismatch|%s" % shape, d))
+    if stt["status"] == b"NO":
+        # a following NO without code and text must not leave this reply's code/text behind
+        peer.replies.insert(0, b"NO\r\n")
+        g3 = s.call("setactive", "x")
+        ec3, em3 = s.client.errcode, s.client.errmsg
+        if g3 != ("ret", False) or (ec3 or b"") != b"" or (em3 or b"") != b"":
+            d = dict(det)
+            d.update(second_reply=b"NO", result=g3, errcode=ec3, errmsg=em3)
+            out.append(("stale-errcode-or-errmsg-after-bare-NO|%s" % shape, d))
     if stt["status"] != b"BYE":
         g2 = s.call("havespace", "sentinel", 1)
         if g2 != ("ret", True) or s.sock.inq:
